@@ -117,6 +117,15 @@ def run(ck, supports_table=None):
                 sup = supports_table[name]
             src = "from t | " + ("sort a | " if sorted_ else "") + "derive {x = %s} | select {x}" % ftxt
             cases.append({"src": src, "args": None, "sorted": sorted_, "grouped": False, "fn": fsql, "supports": sup, "atxt": "(no window)"})
+    # the same over a relation literal with a header and no rows (/repo 8204886: used to panic in the resolver): the
+    # window reaches RQ / SQL unchanged, and the emitted query runs and yields no row
+    empty_base = 'from_text format:csv "a,b,g\\n"'
+    extra = []
+    for c in cases:
+        if c["fn"] in ("SUM", "LAST_VALUE", "RANK") and c["atxt"] in ("rows:(-1)..1", "range:..0", "rolling:2", "expanding:true", "rows:1..0", "rows:0..(-1)", "(no window)", "rows:..") \
+                and (c["sorted"] or not c["atxt"].startswith("range")):
+            extra.append(dict(c, src=empty_base + c["src"][len("from t"):], empty_input=True))
+    cases += extra
     exprs = []
     for c in cases:
         r = "(WFrame no_window)" if c["args"] is None else "(frame_of %s)" % c["args"]
@@ -178,7 +187,16 @@ def run(ck, supports_table=None):
             ck.stat("frame-corr", "disagreement:over-text")
             ck.disagreement("OVER clause differs from the model: %s: impl %r, model %r" % (c["src"], got, want),
                             {"src": c["src"], "impl": a, "model_over": want}, lambda _c: None)
-    ck.coverage["frame_corr_exhaustive"] = {"argument_sets": len(args), "cases": len(cases)}
+    # ... and they run: zero rows in, zero rows out
+    runs = [(c, a["ok"]) for c, a in zip(cases, comp) if c.get("empty_input") and "ok" in a]
+    for (c, sql), x in zip(runs, harness("exec", [{"setup": [], "sql": sql} for _, sql in runs])):
+        ck.count("frame-corr", "exec:" + c["src"])
+        ck.stat("frame-corr", "empty-input:executed")
+        if x.get("rows") != []:
+            ck.stat("frame-corr", "disagreement:empty-input")
+            ck.disagreement("a window over a relation literal without rows does not run to an empty result: %s: %s" % (c["src"], json.dumps(x)[:200]),
+                            {"src": c["src"], "sql": sql, "sqlite": x}, lambda _c: None)
+    ck.coverage["frame_corr_exhaustive"] = {"argument_sets": len(args), "cases": len(cases), "empty_input_cases": len(extra)}
 
 
 # ------------------------------------------------------------------ partition / frame scoping (flatten.rs)
